@@ -210,6 +210,31 @@ def twins(fl: List[int], blob: bytes) -> bool:
     return ok and m.dump() == wire and g.dump() == outer and m.header.get_length() == len(wire)
 
 
+def deep(fl: int, data: bytes) -> bool:
+    """
+    pre: 0 <= fl <= 127 and len(data) == P["L"]
+    post: _
+    """
+    # Failed-AVP nested to depth D around one unknown leaf (flags / data symbolic): well-formed at any depth
+    from bromelia.avps import FailedAvpAVP
+    leaf = ref_avp(7001, fl, None, data)
+    inner = leaf
+    for _ in range(P["depth"]):
+        inner = G.ref_for(FailedAvpAVP, inner)
+    wire = _sym(ref_msg(1, 0, 280, 0, 9, 9, [inner]))
+    msgs = _load(wire)
+    reached()
+    if msgs is None or len(msgs) != 1 or len(msgs[0].avps) != 1:
+        return False
+    a = msgs[0].avps[0]
+    for _ in range(P["depth"]):
+        if type(a) is not FailedAvpAVP or len(a.avps) != 1:
+            return False
+        a = a.avps[0]
+    if REPLAY: note(depth=P["depth"], leaf_flags=a.get_flags(), redump_equal=msgs[0].dump() == wire)
+    return type(a) is DiameterAVP and a.get_flags() == fl and (a.data == data or P["L"] == 0) and msgs[0].dump() == wire
+
+
 def _select(tier):
     allc = G.classes()
     if tier != "quick":
@@ -257,6 +282,9 @@ def queries(tier, seed):
     for Ls in (([3, 1, 2],) if tier == "quick" else ([3, 1, 2], [0, 4, 1], [2, 2, 3], [1, 0, 0])):
         qs.append(Q(f"nested_unknown/{'_'.join(map(str, Ls))}", "nested_unknown", {"Ls": Ls}, cto=t, pto=t,
                     what=f"unknown members (lengths {Ls}) nested two levels inside Failed-AVP: flags/data symbolic"))
+    for depth in ((40,) if tier == "quick" else (8, 40, 64)):
+        qs.append(Q(f"deep/d{depth}", "deep", {"depth": depth, "L": 3}, cto=t, pto=t,
+                    what=f"Failed-AVP nested to depth {depth} around an unknown leaf with symbolic flags/data: decoded level by level, re-encoded identically"))
     for L in ((1, 4) if tier == "quick" else (0, 1, 2, 3, 4, 5)):
         qs.append(Q(f"twins/L{L}", "twins", {"L": L}, cto=t, pto=t,
                     what=f"six same-code unknown AVPs ({L} data bytes each, flags/data symbolic: byte-identical siblings arise) at message level, in a Failed-AVP and in a nested one"))
@@ -264,7 +292,7 @@ def queries(tier, seed):
 
 
 BOUNDS = ["same-code siblings with free flags/data (byte-identical siblings included) at three levels", "header: all values of all fields", "streams of 1..3 messages with <= 4 unknown AVPs each, every data length residue, flags (M,P,reserved) symbolic",
-          "dictionary classes with default flags: quick = all Grouped + custom-logic + one per (type, vendor-ness); thorough = all", "nesting depth 3"]
+          "dictionary classes with default flags: quick = all Grouped + custom-logic + one per (type, vendor-ness); thorough = all", "nesting depth 3; one chain of depth 40 (quick) / 64"]
 OUTSIDE = ["non-zero padding bytes (not well-formed)", "streams of more than 3 messages", "unknown (vendor, code) pairs are concrete constants per position "
            "(the loader only hashes and compares them)", "known AVPs carrying non-default flag bits: open known finding (region excluded, witness replayed)"]
 ASSUMPTIONS = ["reference encoder produces the wire images", "frozen reference dictionary for (vendor, code) -> class and default flags"]
